@@ -109,8 +109,10 @@ def register(OPS, drv):
             d = mk_entry(c["dir"], config)
             p.entry = d
             es = [mk_entry(f, config) for f in c["entries"]]
+            # the handler contract leaves the container open ("list, iterator, tuple, generator, etc")
+            wrap = [list, tuple, iter, lambda xs: (x for x in xs), lambda xs: map(lambda x: x, xs)][len(out) % 5]
             try:
-                p.writedir(d, es)
+                p.writedir(d, wrap(es))
                 out.append({"out": drv.b2s(wfile.getvalue()), "exc": None})
             except Exception as ex:  # noqa
                 out.append({"out": None, "exc": type(ex).__name__, "partial": drv.b2s(wfile.getvalue())})
@@ -173,72 +175,123 @@ def register(OPS, drv):
                         L(ps[2].adjust_mimetype(m)), L(ps[3].adjust_mimetype(m))])
         return out
 
-    def op_c06_live(job):
+    class LiveServer:
         """The real ThreadingTCPServer + GopherRequestHandler on an ephemeral port (demo certificate for the
-        TLS protocols).  Each request is a list of `pieces` written one after the other with a pause in
-        between (TCP_NODELAY, so every piece travels on its own), the way a network or a client that
-        flushes in the middle delivers a request; the reply is read until the server closes."""
-        import base64
-        import os
-        import socket
-        import ssl
-        import threading
-        import time
-        import pygopherd.server as pserver
+        TLS protocols), serving world `w` from a thread of this process."""
+
+        def __init__(self, w):
+            import os
+            import ssl
+            import threading
+            import pygopherd.server as pserver
+            crt = os.path.join(drv.REPO, "testdata", "demo.crt")
+            key = os.path.join(drv.REPO, "testdata", "demo.key")
+            ctx = ssl.create_default_context(ssl.Purpose.CLIENT_AUTH)
+            ctx.load_cert_chain(crt, key)
+            self.cctx = ssl.SSLContext(ssl.PROTOCOL_TLS_CLIENT)
+            self.cctx.check_hostname = False
+            self.cctx.verify_mode = ssl.CERT_NONE
+            self.srv = pserver.ThreadingTCPServer(w.config, ("127.0.0.1", 0), pserver.GopherRequestHandler, context=ctx)
+            self.srv.daemon_threads = True
+            self.th = threading.Thread(target=self.srv.serve_forever, kwargs={"poll_interval": 0.05}, daemon=True)
+            self.th.start()
+
+        def request(self, r):
+            """r: {pieces | data, tls, pause_ms}: the pieces are written one after the other with a pause in
+            between (TCP_NODELAY, so every piece travels on its own); the reply is read until the server closes."""
+            import socket
+            import time
+            got, err = [], None
+            t0 = time.time()
+            s = socket.create_connection(self.srv.server_address[:2], timeout=15)
+            try:
+                s.setsockopt(socket.IPPROTO_TCP, socket.TCP_NODELAY, 1)
+                if r.get("tls"):
+                    s = self.cctx.wrap_socket(s)
+                pieces = r["pieces"] if "pieces" in r else [r["data"]]
+                for i, pc in enumerate(pieces):
+                    s.sendall(drv.s2b(pc))
+                    if i + 1 < len(pieces):
+                        time.sleep(r.get("pause_ms", 30) / 1000.0)
+                while True:
+                    d = s.recv(1 << 16)
+                    if not d:
+                        break
+                    got.append(d)
+            except Exception as e:  # what a client would see
+                err = type(e).__name__ + ": " + str(e)
+            finally:
+                try:
+                    s.close()
+                except Exception:
+                    pass
+            return {"out": drv.b2s(b"".join(got)), "exc": err, "secs": round(time.time() - t0, 3)}
+
+        def close(self):
+            self.srv.shutdown()
+            self.srv.server_close()
+            self.th.join(timeout=5)
+
+    def live_spec(job):
         spec = dict(job)
         cfg = dict(spec.get("config") or {})
         pg = dict(cfg.get("pygopherd", {}))
         pg.update({"servername": "gopher.example", "advertisedport": "70", "timeout": "20"})
         cfg["pygopherd"] = pg
         spec["config"] = cfg
-        w = drv.World(spec)
-        crt = os.path.join(drv.REPO, "testdata", "demo.crt")
-        key = os.path.join(drv.REPO, "testdata", "demo.key")
-        ctx = ssl.create_default_context(ssl.Purpose.CLIENT_AUTH)
-        ctx.load_cert_chain(crt, key)
-        cctx = ssl.SSLContext(ssl.PROTOCOL_TLS_CLIENT)
-        cctx.check_hostname = False
-        cctx.verify_mode = ssl.CERT_NONE
-        srv = pserver.ThreadingTCPServer(w.config, ("127.0.0.1", 0), pserver.GopherRequestHandler, context=ctx)
-        srv.daemon_threads = True
-        th = threading.Thread(target=srv.serve_forever, kwargs={"poll_interval": 0.05}, daemon=True)
-        th.start()
+        return spec
+
+    def op_c06_live(job):
+        """Requests (each a list of `pieces`) to the real server over real sockets, see LiveServer."""
+        w = drv.World(live_spec(job))
+        live = LiveServer(w)
         res = []
         try:
             for r in job["requests"]:
-                got, err = [], None
-                t0 = time.time()
-                s = socket.create_connection(srv.server_address[:2], timeout=15)
-                try:
-                    s.setsockopt(socket.IPPROTO_TCP, socket.TCP_NODELAY, 1)
-                    if r.get("tls"):
-                        s = cctx.wrap_socket(s)
-                    pieces = r["pieces"]
-                    for i, pc in enumerate(pieces):
-                        s.sendall(drv.s2b(pc))
-                        if i + 1 < len(pieces):
-                            time.sleep(r.get("pause_ms", 30) / 1000.0)
-                    while True:
-                        d = s.recv(1 << 16)
-                        if not d:
-                            break
-                        got.append(d)
-                except Exception as e:  # what a client would see
-                    err = type(e).__name__ + ": " + str(e)
-                finally:
-                    try:
-                        s.close()
-                    except Exception:
-                        pass
-                res.append({"out": drv.b2s(b"".join(got)), "exc": err, "secs": round(time.time() - t0, 3)})
+                res.append(live.request(r))
         finally:
-            srv.shutdown()
-            srv.server_close()
-            th.join(timeout=5)
+            live.close()
             w.close()
         return {"results": res}
 
+    def op_c06_transports(job):
+        """One world, one daemon working directory, every request served the way it says:
+          "mem"  - in process, the reply collected in memory (no descriptor behind the output file);
+          "fd"   - in process, the output file is an unbuffered socket file (a real descriptor, as the
+                   real StreamRequestHandler has); a TLS connection is one as far as the protocol can tell;
+          "live" - the real ThreadingTCPServer on an ephemeral port, real TCP and real TLS.
+        All three run in THIS process: same environment, same working directory (job["cwd"]: "parent" = the
+        directory above the root, "root", "slash", or a path relative to the root)."""
+        import os
+        import implops_site
+        w = drv.World(live_spec(job))
+        cwd0 = os.getcwd()
+        live = None
+        res = []
+        try:
+            where = job.get("cwd", "parent")
+            os.chdir({"parent": w.parent, "root": w.root, "slash": "/"}.get(where) or os.path.join(w.root, where.lstrip("/")))
+            for r in job["requests"]:
+                tr = r.get("transport", "mem")
+                data = drv.s2b(r["data"])
+                if tr == "mem":
+                    o = drv.serve_once(w.config, data, tls=r.get("tls", False))
+                elif tr == "fd":
+                    o = implops_site._serve_socket(drv, w.config, data, tls=r.get("tls", False))
+                else:
+                    if live is None:
+                        live = LiveServer(w)
+                    o = live.request(r)
+                res.append({"out": o["out"], "exc": o["exc"], "secs": o["secs"]})
+        finally:
+            os.chdir(cwd0)
+            if live is not None:
+                live.close()
+            w.close()
+        return {"cwd": where, "results": res}
+
     OPS["c06_live"] = op_c06_live
+    OPS["c06_transports"] = op_c06_transports
     OPS["c06_rows"] = op_c06_rows
     OPS["c06_geturl"] = op_c06_geturl
     OPS["c06_dirs"] = op_c06_dirs
